@@ -136,7 +136,7 @@ def run_exh(shard, rec, B):
                 if ok:
                     good, obs = _same(B, Q, g, p + 2)
                     rec.check("neg", good, [s, p], nt, expected=O.show(g, p + 2), observed=obs)
-                for c, dp in ((1, 0), (-1, 2), (1j, 1), (-1j, 3)):
+                for c, dp in ((1, 0), (-1, 2), (1j, 1), (-1j, 3), (np.float64(-1.0), 2), (np.complex128(1j), 1), (np.int64(-1), 2), (np.complex64(-1j), 3), (-1.0 + 0j, 2)):
                     ok, Q = rec.attempt("scalar", [s, p, str(c)], lambda: c * P0)
                     if ok:
                         good, obs = _same(B, Q, g, p + dp)
@@ -250,7 +250,7 @@ def run_rand(shard, rec, B):
                     good = False
                 rec.check("index." + kind, good and isinstance(R, lib.PauliList), lab, True)
         # list negation and scalars
-        for c, dp in ((None, 2), (1, 0), (-1, 2), (1j, 1), (-1j, 3)):
+        for c, dp in ((None, 2), (1, 0), (-1, 2), (1j, 1), (-1j, 3), (np.float64(-1.0), 2), (np.complex128(1j), 1), (np.int64(1), 0), (np.complex64(-1j), 3)):
             ok, R = rec.attempt("scalar.list", [case, str(c)], (lambda: -PL) if c is None else (lambda: c * PL))
             if ok:
                 qg, qp = B.gsps(R)
